@@ -160,6 +160,62 @@ def build():
             && !sb(ret->0.method).contains(40u8) && !sb(ret->0.file->0).contains(58u8),
 """)
     u.emit(pf)
+    # ---- the public entry points StackFrame::try_parse / Throwable::try_parse: from_utf8, then the parser above ----
+    u.raw("""
+#[verifier::external_type_specification]
+#[verifier::external_body]
+pub struct ExUtf8Error(std::str::Utf8Error);
+pub uninterp spec fn is_utf8(b: Seq<u8>) -> bool;
+pub assume_specification<'a> [std::str::from_utf8] (v: &'a [u8]) -> (r: Result<&'a str, std::str::Utf8Error>)
+    ensures match r { Ok(s) => is_utf8(v@) && sb(s) == v@, Err(_) => !is_utf8(v@) };
+""", "from_utf8 model")
+    SF = "impl<'s> StackFrame<'s>"
+    tf = st.impl_fn(SF, "try_parse")
+    tf.ret("ret")
+    tf.contracted = True
+    tf.props_all = ["C17"]
+    tf.props_safety = ["C13"]
+    mtf = re.search(r"fn\s+try_parse\s*\(\s*(\w+)\s*:\s*&'s\s*\[u8\]\s*\)", tf.orig)
+    if not mtf:
+        raise AnchorLost("StackFrame::try_parse: parameter not found")
+    tf.contract("""    ensures
+        /*@L:frame_try_parse_is_the_reference_parser_on_valid_utf8:C17*/ match ret {
+            Some(f) => is_utf8(%(l)s@) && f.file is Some && f.parameters is None
+                && frame_spec(spec_trim(%(l)s@)) == Some(FrameParts { class: sb(f.class), method: sb(f.method), file: sb(f.file->0), line: f.line }),
+            None => !is_utf8(%(l)s@) || frame_spec(spec_trim(%(l)s@)) is None,
+        },
+""" % dict(l=mtf.group(1)))
+    str_shims(tf)
+    u.raw(st.impl_header(SF) + "{\n", "glue")
+    u.emit(tf)
+    u.raw("}\n", "glue")
+    TH = "impl<'s> Throwable<'s>"
+    tt = st.impl_fn(TH, "try_parse")
+    tt.ret("ret")
+    tt.contracted = True
+    tt.props_all = ["C17"]
+    tt.props_safety = ["C13"]
+    mtt = re.search(r"fn\s+try_parse\s*\(\s*(\w+)\s*:\s*&'s\s*\[u8\]\s*\)", tt.orig)
+    if not mtt:
+        raise AnchorLost("Throwable::try_parse: parameter not found")
+    mfi = re.search(r"\.and_then\(\s*(parse_throwable)\s*\)", tt.orig)
+    if mfi:
+        tt.replace_span(mfi.start(1), mfi.end(1), """|l: &'s str| -> (o: Option<Throwable<'s>>)
+            ensures o is Some ==> sb(o->0.class) == throwable_class(spec_trim(sb(l))),
+                o is Some ==> match throwable_message(spec_trim(sb(l))) { Some(m) => o->0.message is Some && sb(o->0.message->0) == m, None => o->0.message is None },
+                (o is Some) == !throwable_class(spec_trim(sb(l))).contains(32u8),
+            { parse_throwable(l) }""", "R3", "a fn item passed to Option::and_then is eta-expanded into a closure that carries the item's contract")
+    tt.contract("""    ensures
+        /*@L:throwable_try_parse_is_the_reference_parser_on_valid_utf8:C17*/ match ret {
+            Some(t) => is_utf8(%(l)s@) && sb(t.class) == throwable_class(spec_trim(%(l)s@)) && !throwable_class(spec_trim(%(l)s@)).contains(32u8)
+                && match throwable_message(spec_trim(%(l)s@)) { Some(m) => t.message is Some && sb(t.message->0) == m, None => t.message is None },
+            None => !is_utf8(%(l)s@) || throwable_class(spec_trim(%(l)s@)).contains(32u8),
+        },
+""" % dict(l=mtt.group(1)))
+    u.raw(st.impl_header(TH) + "{\n", "glue")
+    u.emit(tt)
+    u.raw("}\n", "glue")
+
     # ---- extract_class_name: the two textual copies against ONE specification ----
     u.raw("""
 // the simple name of the outermost class: after the last '.', before the first '$'
@@ -169,6 +225,7 @@ pub open spec fn osn(s: Seq<u8>) -> Seq<u8> { split_all(split_all(s, seq![46u8])
         sf = u.source(srcf)
         ec = sf.fn("extract_class_name")
         ec.name = "extract_class_name_%s" % qual
+        ec.qualname = "extract_class_name[%s]" % qual   # two copies, one per file: distinct names for obligations and vacuity canaries
         ec.ret("ret")
         ec.contracted = True
         ec.props_all = ["C01", "C02"]
